@@ -88,17 +88,26 @@ tp = _os.path.join(tlc.WORK, "selftest_trace.ndjson")
 if _os.path.exists(tp):
   _os.unlink(tp)
 _os.environ["AI_EDGE_QUANTIZER_VERIF_TRACE"] = tp
+pp = _os.path.join(tlc.WORK, "selftest_plan.ndjson")
+if _os.path.exists(pp):
+  _os.unlink(pp)
+_os.environ["AI_EDGE_QUANTIZER_VERIF_PLAN_TRACE"] = pp
 scn2 = {"subs": [{"ops": [{"kind": "EW1", "ins": [0], "outs": [1]}, {"kind": "EW2", "ins": [1, 0], "outs": [2]}], "trole": ["act", "act", "act"], "gins": [0], "gouts": [1, 2]}],
         "mode": [[{"m": "SRQ", "a": "a8a", "w": "w8c"}, {"m": "NOQ", "a": "-", "w": "-"}]], "inmode": {"m": "NOQ", "a": "-", "w": "-"}, "outmode": {"m": "NOQ", "a": "-", "w": "-"}}
 impl2 = pipeline.run_impl(scn2)
 _os.environ.pop("AI_EDGE_QUANTIZER_VERIF_TRACE")
+_os.environ.pop("AI_EDGE_QUANTIZER_VERIF_PLAN_TRACE")
 ev = [json.loads(x) for x in open(tp)]
-def res_of(events):
-  return {"events": events, "scn": scn2, "outcome": impl2["outcome"], "key": "selftest"}
+plan = [json.loads(x) for x in open(pp)][-1]
+def res_of(events, pl=None):
+  return {"events": events, "plan": plan if pl is None else pl, "scn": scn2, "outcome": impl2["outcome"], "key": "selftest"}
 corrupt = json.loads(json.dumps(ev))
 corrupt[-1]["omap"][0] += 1                      # one bookkeeping field off by one
-nacc, rej, _ = pipecheck.validate_traces("selftest_traces", [res_of(ev), res_of(corrupt), res_of(ev[:-1])])
-expect("PipelineTrace: genuine hook trace accepted, corrupted omap rejected, missing event rejected", nacc == 1 and sorted(i for i, _ in rej) == [1, 2], "%d accepted, rejected %s" % (nacc, [i for i, _ in rej]))
+badplan = json.loads(json.dumps(plan))
+kp = [k for k, e in enumerate(badplan) if any(i[0] != "NO_QUANTIZE" for i in e["insts"])][0]
+badplan[kp]["insts"][0][3] = badplan[kp]["insts"][0][3] + [0]          # one consumer too many in one planned instruction
+nacc, rej, _ = pipecheck.validate_traces("selftest_traces", [res_of(ev), res_of(corrupt), res_of(ev[:-1]), res_of(ev, badplan)])
+expect("PipelineTrace: genuine hook trace accepted; corrupted omap, missing event, corrupted plan rejected", nacc == 1 and sorted(i for i, _ in rej) == [1, 2, 3], "%d accepted, rejected %s" % (nacc, [i for i, _ in rej]))
 for fixes, want in (('{"inout"}', False), ("{}", True)):
   rv = tlc.run("selftest_validate", "Validate", dict(Names='{"a", "b", "c"}', Fixes=fixes), invariants=["PartitionOK", "ReturnsForQuantizedPair"], workers=8)
   expect("Validate fixes %-10s ReturnsForQuantizedPair %s" % (fixes, "violated" if want else "holds"), ("ReturnsForQuantizedPair" in rv.violated) == want, str(rv.violated))
